@@ -39,7 +39,8 @@ Emb(n, j) == IF j < n THEN j ELSE j + 1      \* j-th peer of n in index order
 
 Init ==
     /\ \E q \in (IF AllInit THEN [Node -> Perms(1..(N - 1))] ELSE {[n \in Node |-> [j \in 1..(N - 1) |-> j]]}) :   \* shuffle in start()
-          nd = [n \in Node |-> InitNode(N, n, [j \in 1..(N - 1) |-> Emb(n, q[n][j])])]
+          nd = [n \in Node |-> InitNode(N, n, [j \in 1..(N - 1) |-> Emb(n, q[n][j])],
+                                         IF "phi_zero_before_first_heartbeat" \in Dev THEN NoHb ELSE Offsets[n])]
     /\ nt = [n \in Node |-> Offsets[n] + I]
     /\ msgs = {} /\ now = 0 /\ stopped = {} /\ stopAt = -1 /\ cut = FALSE /\ lied = FALSE
     /\ dinc = [n \in Node |-> [m \in Node |-> -1]]
@@ -161,7 +162,7 @@ InvCompleteness == Completeness(P, nd, Live, stopped, stopAt, now, ~cut /\ ~lied
 InvNoResurrection == NoResurrection(nd, dinc)
 
 (* Machinery self-checks *)
-\* nothing is ever overdue, distinct sends never collapse into one set element
+\* nothing is ever overdue: Advance never jumps over a pending tick, timer or message
 InvNoOverdue == \A t \in DueTimes : t >= now
 \* under the premise the ack always beats the ack timer: no suspicion timeout is ever armed for a live peer
 InvNoSuspTimerOnLive == ~cut => \A n \in Live, m \in Live : nd[n].pend[m][1] # 2
